@@ -155,10 +155,23 @@ def perturb_events(ns, out, tid, seq, seed, model, inputs, rng=None):
     nodes_f, _, _t = graph(ns, fresh)
     ids = {(n, a): f"{a}-in-{fresh[n].id}" for n in names for a in efx.explainable_attrs(ns, fresh[n])
            if a not in efx.BOOKKEEPING}
+    todo = []
     for n, a in inputs:
+        todo.append((n, a, None))
+        if a == "data_storage_duration":
+            # a change of regime: a duration longer than the modelled period (nothing expires) becomes two hours, a short one ten years
+            mv = model[n]["inp"][a]
+            try:
+                long_one = float((mv[0] * ns.u(mv[1])).to(ns.u.hour).magnitude) > 24 * 30
+            except Exception:   # noqa
+                long_one = False
+            todo.append((n, a, [2, "hour"] if long_one else [10, "year"]))
+    for n, a, replacement in todo:
         m2 = copy.deepcopy(model)
         hour = {"s": 3600, "min": 60, "hour": 1}.get(m2[n]["inp"][a][1])
-        if a in ("user_time_spent", "request_duration") and hour:
+        if replacement is not None:
+            m2[n]["inp"][a] = replacement
+        elif a in ("user_time_spent", "request_duration") and hour:
             m2[n]["inp"][a][0] = m2[n]["inp"][a][0] + hour        # across an hour boundary: what comes later is placed another hour
         else:
             m2[n]["inp"][a][0] = m2[n]["inp"][a][0] * 1.37 + (0.5 if m2[n]["inp"][a][0] == 0 else 0)
@@ -232,7 +245,8 @@ def run(tier, out):
             inputs = [(n, a) for n in names for a in h.model[n]["inp"]]
             rng.shuffle(inputs)
             durations = [x for x in inputs if x[1] in ("user_time_spent", "request_duration")]
-            inputs = durations[:3] + [x for x in inputs if x not in durations[:3]]
+            first = durations[:3] + [x for x in inputs if x[1] == "data_storage_duration"][:2]
+            inputs = first + [x for x in inputs if x not in first]
             evs, seq = perturb_events(ns, out, tid, seq, seed, h.model, inputs[: (8 if tier == "quick" else 40)])
             events += evs
         for variant, m in empty_value_models():
